@@ -394,7 +394,9 @@ func (l *leader) notifyFlr(includeConfig bool) {
 		commitIndex: l.commitIndex,
 	}
 	if includeConfig {
-		update.config = &l.configs.Latest
+		// replications read it concurrently, give them their own copy
+		config := l.configs.Latest
+		update.config = &config
 	}
 	for _, repl := range l.repls {
 		select {
